@@ -68,8 +68,15 @@ pub fn c14_powf_total() {
     reached();
 }
 
-//@ id=C14 tier=quick to=900 cfg=std exh=1 desc="range switches: exp(x) is exactly 0 for all valid x <= -750 and has a non-finite high word for all valid x >= 710; exp(0) == 1"
-#[cfg_attr(kani, kani::proof)]
+//@ id=C14 tier=quick to=900 cfg=std exh=1 stub=1 stubs="double-double operator impls -> havoc (the range switches are early returns that do not involve them)" desc="range switches: exp(x) is exactly 0 for all valid x <= -750 and has a non-finite high word for all valid x >= 710; exp(0) == 1"
+#[cfg_attr(all(kani, feature = "stubs"), kani::proof)]
+#[cfg_attr(all(kani, feature = "stubs"), kani::unwind(16))]
+#[cfg_attr(all(kani, feature = "stubs"), kani::stub(<&twofloat::TwoFloat as core::ops::Mul<&twofloat::TwoFloat>>::mul, crate::uf::havoc_tt))]
+#[cfg_attr(all(kani, feature = "stubs"), kani::stub(<&twofloat::TwoFloat as core::ops::Add<&twofloat::TwoFloat>>::add, crate::uf::havoc_tt))]
+#[cfg_attr(all(kani, feature = "stubs"), kani::stub(<&twofloat::TwoFloat as core::ops::Add<&f64>>::add, crate::uf::havoc_tf64))]
+#[cfg_attr(all(kani, feature = "stubs"), kani::stub(<&twofloat::TwoFloat as core::ops::Sub<&f64>>::sub, crate::uf::havoc_tf64))]
+#[cfg_attr(all(kani, feature = "stubs"), kani::stub(<&twofloat::TwoFloat as core::ops::Div<&f64>>::div, crate::uf::havoc_tf64))]
+#[cfg_attr(all(kani, feature = "stubs"), kani::stub(<&f64 as core::ops::Div<&twofloat::TwoFloat>>::div, crate::uf::havoc_f64t))]
 pub fn c14_exp_range() {
     let x = any_valid();
     if x.hi() <= -750.0 {
@@ -85,8 +92,15 @@ pub fn c14_exp_range() {
     reached();
 }
 
-//@ id=C14 tier=quick to=900 cfg=std exh=1 desc="range switches: exp2(x) is exactly 0 for all valid x <= -1080 and non-finite for all valid x >= 1024"
-#[cfg_attr(kani, kani::proof)]
+//@ id=C14 tier=quick to=900 cfg=std exh=1 stub=1 stubs="double-double operator impls -> havoc (the range switches are early returns that do not involve them)" desc="range switches: exp2(x) is exactly 0 for all valid x <= -1080 and non-finite for all valid x >= 1024"
+#[cfg_attr(all(kani, feature = "stubs"), kani::proof)]
+#[cfg_attr(all(kani, feature = "stubs"), kani::unwind(16))]
+#[cfg_attr(all(kani, feature = "stubs"), kani::stub(<&twofloat::TwoFloat as core::ops::Mul<&twofloat::TwoFloat>>::mul, crate::uf::havoc_tt))]
+#[cfg_attr(all(kani, feature = "stubs"), kani::stub(<&twofloat::TwoFloat as core::ops::Add<&twofloat::TwoFloat>>::add, crate::uf::havoc_tt))]
+#[cfg_attr(all(kani, feature = "stubs"), kani::stub(<&twofloat::TwoFloat as core::ops::Add<&f64>>::add, crate::uf::havoc_tf64))]
+#[cfg_attr(all(kani, feature = "stubs"), kani::stub(<&twofloat::TwoFloat as core::ops::Sub<&f64>>::sub, crate::uf::havoc_tf64))]
+#[cfg_attr(all(kani, feature = "stubs"), kani::stub(<&twofloat::TwoFloat as core::ops::Div<&f64>>::div, crate::uf::havoc_tf64))]
+#[cfg_attr(all(kani, feature = "stubs"), kani::stub(<&f64 as core::ops::Div<&twofloat::TwoFloat>>::div, crate::uf::havoc_f64t))]
 pub fn c14_exp2_range() {
     let x = any_valid();
     if x.hi() <= -1080.0 {
